@@ -10,7 +10,9 @@ import networkx as nx
 VAL = {('C', 0): [4], ('N', 0): [3, 5], ('O', 0): [2], ('S', 0): [2, 4, 6], ('P', 0): [3, 5],
        ('F', 0): [1], ('Cl', 0): [1], ('Br', 0): [1], ('I', 0): [1], ('N', 1): [4], ('O', -1): [1],
        ('S', -1): [1], ('O', 1): [3], ('N', -1): [2], ('C', -1): [3], ('B', 0): [3], ('Si', 0): [4],
-       ('H', 0): [1], ('P', 1): [4], ('S', 1): [3, 5]}
+       ('H', 0): [1], ('P', 1): [4], ('S', 1): [3, 5],
+       # main-group elements outside the SMILES organic subset (bracket atoms of silicones, selenols, boranes, germanes, arsines)
+       ('Se', 0): [2, 4, 6], ('Ge', 0): [4], ('As', 0): [3, 5], ('Te', 0): [2, 4, 6]}
 ATOMS = [('C', 0)] * 12 + [('N', 0)] * 3 + [('O', 0)] * 3 + [('S', 0)] * 2 + [('P', 0)] + \
         [('F', 0), ('Cl', 0), ('Br', 0)] + [('N', 1), ('O', -1)]
 MASS = {'H': 1.008, 'C': 12.011, 'N': 14.007, 'O': 15.999, 'S': 32.06, 'P': 30.974, 'F': 18.998,
